@@ -422,6 +422,10 @@ func selectOps(all []c08Op, s c08Shape) []c08Op {
 	return out
 }
 
+// warmOps are executed once on a valid document when a child starts: their first execution initialises tables
+// (font metrics, colour tables) whose cost must not be charged to the first shape.
+var warmOps = map[string]bool{}
+
 // bigOps: in the quick tier inputs above 256 KB (the 10^4 object chains, the 10^5 level nestings) get the reading and
 // validating entry points plus the first two that traverse the relation; the thorough tier runs everything.
 var bigOps = map[string]bool{"read-relaxed": true, "validate-relaxed": true, "validate-strict": true, "optimize": true, "info": true}
@@ -527,9 +531,16 @@ func c08Child() {
 		h.Die("c08: %v", err)
 	}
 	defer os.RemoveAll(dir)
-	if err := api.EnsureDefaultConfigAt(filepath.Join(dir, "cfg")); err != nil {
+	// the configuration directory (fonts, certificates) is prepared once by the parent and shared
+	cfgDir := h.Arg("--cfgdir")
+	if cfgDir == "" {
+		cfgDir = filepath.Join(dir, "cfg")
+	}
+	tStart := time.Now()
+	if err := api.EnsureDefaultConfigAt(cfgDir); err != nil {
 		h.Die("c08: config dir: %v", err)
 	}
+	tCfg := time.Since(tStart)
 	model.TrustedCertDir = filepath.Join(dir, "trusted")
 	os.MkdirAll(model.TrustedCertDir, 0o755)
 	e := &c08Env{dir: dir, mutK: h.ArgInt("--mutk", 12), truncK: h.ArgInt("--trunck", 12)}
@@ -544,11 +555,19 @@ func c08Child() {
 	baseCPU := time.Duration(h.ArgInt("--cpu-ms", 1500)) * time.Millisecond
 	perByte := time.Duration(h.ArgInt("--cpu-ns-per-byte", 20000)) * time.Nanosecond
 	// one-time initialisations (font metrics, tables) must not be charged to the first shape
+	tw := time.Now()
 	for _, op := range pops {
+		if !warmOps[op.name] {
+			continue
+		}
 		func() {
 			defer func() { recover() }()
 			op.run(e.bases["classic"], e)
 		}()
+	}
+	tWarm := time.Since(tw)
+	if os.Getenv("C08_PROFILE") != "" {
+		fmt.Fprintf(os.Stderr, "startup: config %v warm-up %v total %v\n", tCfg, tWarm, time.Since(tStart))
 	}
 	brk := &breaker{path: h.Arg("--breaker")}
 	wd := newWatchdog()
@@ -680,7 +699,7 @@ func c08Main() {
 	out := h.Arg("--out")
 	repo := h.Arg("--repo")
 	workers := h.ArgInt("--workers", 8)
-	baseMs := h.ArgInt("--base-ms", 60000)
+	baseMs := h.ArgInt("--base-ms", 300000)
 	var cases []c08Case
 	if err := h.EachLine(in, func(line []byte) error {
 		var c c08Case
@@ -696,6 +715,14 @@ func c08Main() {
 	byCase := make([][]c08OpRec, len(cases))
 	dead := 0
 	cpuMs := h.ArgInt("--cpu-ms", 1500)
+	cfgDir, err := os.MkdirTemp("", "c08-cfg-")
+	if err != nil {
+		h.Die("c08: %v", err)
+	}
+	defer os.RemoveAll(cfgDir)
+	if err := api.EnsureDefaultConfigAt(cfgDir); err != nil {
+		h.Die("c08: config dir: %v", err)
+	}
 	brkPath := out + ".breaker"
 	os.WriteFile(brkPath, nil, 0o644)
 	defer os.Remove(brkPath)
@@ -703,7 +730,7 @@ func c08Main() {
 	r := &runner{sub: "c08-child", n: len(cases), workers: workers,
 		confirmArgs: []string{"--cpu-ms", fmt.Sprint(3 * cpuMs)},
 		args: []string{"--in", in, "--repo", repo, "--mutk", h.Arg("--mutk"), "--trunck", h.Arg("--trunck"), "--maxstack-mb", h.Arg("--maxstack-mb"),
-			"--cpu-ms", h.Arg("--cpu-ms"), "--cpu-ns-per-byte", h.Arg("--cpu-ns-per-byte"), "--ops", h.Arg("--ops"), "--breaker", brkPath},
+			"--cpu-ms", h.Arg("--cpu-ms"), "--cpu-ns-per-byte", h.Arg("--cpu-ns-per-byte"), "--ops", h.Arg("--ops"), "--breaker", brkPath, "--cfgdir", cfgDir},
 		env: []string{"GOMAXPROCS=2"},
 		deadline: func(idx int, op string) time.Duration {
 			// The child enforces a CPU time budget proportional to the input size itself; this wall clock bound is the
